@@ -223,7 +223,7 @@ def payload_checksum_ref(data):
 
 
 def guardrails_payload(envkey, options=(5,), config=None, prefix=b"", suffix=b"", bad_checksum=False, terminator=True,
-                       guard_pad=2048):
+                       guard_pad=2048, checksum_len=4):
     """reference Guardrails encoder written from the format: the 6144-byte configuration area is XORed with the
     environmental key and 0x2e; the 2048-byte guard configuration (TLV settings incl. option 9 = checksum + 1) is
     XORed with the reversed masked configuration and 0x8a"""
@@ -239,7 +239,8 @@ def guardrails_payload(envkey, options=(5,), config=None, prefix=b"", suffix=b""
         ty, val = vals[opt]
         guard += opt.to_bytes(2, "big") + ty.to_bytes(2, "big") + len(val).to_bytes(2, "big") + val
     cs = payload_checksum_ref(cfg) + 1 + (7 if bad_checksum else 0)
-    guard += (9).to_bytes(2, "big") + (2).to_bytes(2, "big") + (4).to_bytes(2, "big") + cs.to_bytes(4, "big")
+    # checksum_len != 4: a malformed (untrusted) guard configuration whose checksum value is shorter / longer than a dword
+    guard += (9).to_bytes(2, "big") + (2).to_bytes(2, "big") + checksum_len.to_bytes(2, "big") + (cs.to_bytes(4, "big") + bytes(4))[:checksum_len]
     if terminator:
         guard += b"\x00\x00"
     guard = (guard + bytes(max(0, guard_pad - len(guard))))[:guard_pad] if terminator else guard
